@@ -67,7 +67,7 @@ func ParseList(s string) ([][]byte, bool) {
 // insertion order (empty ones included).
 func HeaderPatterns(line string) ([][]byte, bool) {
 	t := strings.Fields(line)
-	if len(t) < 3 || t[2] != "trie" {
+	if len(t) < 3 || (t[2] != "trie" && t[2] != "raw") {
 		return nil, false
 	}
 	var ps [][]byte
